@@ -40,25 +40,38 @@ _built = {}
 
 
 def build_harness(race=False):
-    """Build vh from /repo's current working tree with the hooks enabled (tag verif)."""
+    """Build vh from the working tree of the repository under test (/repo; VERIF_REPO overrides it for experiments on scratch
+    copies) with the hooks enabled (tag verif). The module file is generated so that the replace directive points there."""
     key = "vh-race" if race else "vh"
     if key in _built:
         return _built[key]
     os.makedirs(BIN, exist_ok=True)
-    # harness go.sum = repo go.sum + what the harness itself needs (kept in go.sum.extra)
     sums = open(os.path.join(REPO, "go.sum")).read()
     extra = os.path.join(HARNESS, "go.sum.extra")
     if os.path.exists(extra):
         sums += open(extra).read()
+    mod = open(os.path.join(HARNESS, "go.mod")).read().replace("=> /repo", "=> " + REPO)
+    modfile = os.path.join(OUT, "harness-%d.mod" % os.getpid())
+    with open(modfile, "w") as f:
+        f.write(mod)
+    with open(modfile[:-4] + ".sum", "w") as f:
+        f.write(sums)
     with open(os.path.join(HARNESS, "go.sum"), "w") as f:
         f.write(sums)
-    out = os.path.join(BIN, key)
-    cmd = ["go", "build", "-tags", "verif", "-o", out]
+    out = os.path.join(BIN, "%s-%d" % (key, os.getpid()))
+    cmd = ["go", "build", "-modfile", modfile, "-tags", "verif", "-o", out]
     if race:
         cmd.append("-race")
     cmd.append("./cmd/vh")
     t = time.time()
-    sh(cmd, cwd=HARNESS, timeout=600)
+    try:
+        sh(cmd, cwd=HARNESS, timeout=900)
+    finally:
+        for x in (modfile, modfile[:-4] + ".sum"):
+            try:
+                os.unlink(x)
+            except OSError:
+                pass
     log("[build] %s from %s (tags=verif%s) in %.1fs" % (key, REPO, ",race" if race else "", time.time() - t))
     _built[key] = out
     return out
@@ -69,7 +82,7 @@ def build_cli():
     if "bcl" in _built:
         return _built["bcl"]
     os.makedirs(BIN, exist_ok=True)
-    out = os.path.join(BIN, "bcl")
+    out = os.path.join(BIN, "bcl-%d" % os.getpid())
     sh(["go", "build", "-o", out, "./cmd/bcl"], cwd=REPO, timeout=600)
     _built["bcl"] = out
     return out
@@ -462,6 +475,11 @@ class Run:
     def cleanup(self, keep=False):
         if not keep:
             shutil.rmtree(self.scratch, ignore_errors=True)
+        for b in _built.values():   # per-invocation binaries
+            try:
+                os.unlink(b)
+            except OSError:
+                pass
 
 
 class Findings:
